@@ -216,7 +216,8 @@ def main(argv=None):
                        "tier": tier, "verifier_output": r["detail"], "witness": r.get("witness"),
                        "functions": metas.get(r["trace"], {}).get("functions", []),
                        "how_to_replay": f"./check {prop} --replay {rp}"}, f, indent=1, default=str)
-        tail = "" if r.get("witness") else " no-failing-input-found"
+        w_ = r.get("witness")
+        tail = "" if (w_ and (not isinstance(w_, dict) or w_.get("inputs"))) else " no-failing-input-found"
         print(f"VIOLATION property={prop} replay={rp}{tail}")
         print(f"  obligation {r['trace']} / {r['ob']} [{r['backend']}] {r['detail'][:400]}")
         rc = 1
